@@ -9,7 +9,7 @@ import re
 import z3
 
 from domains import Num
-from interp import (EnumVal, Array, ChainIter, ClonedIter, EnumerateIter, MapIter, OnceIter, Opt, Panic, Ref,
+from interp import (ListIter, TakeIter, remaining_len, EnumVal, Array, ChainIter, ClonedIter, EnumerateIter, MapIter, OnceIter, Opt, Panic, Ref,
                     RevIter, SkipIter, SliceIter, SliceRef, Struct, Tuple, UNIT, Unsupported, VecIntoIter,
                     VecV, ZipIter, clone_value, into_iter, read_path, write_path, IterBase)
 
@@ -132,6 +132,24 @@ def try_builtin(it, callee, args):
         used("f64 " + m.group(1))
         write_path(r.cell, r.path, it.binop(op, cur, b))
         return UNIT
+    # ---- explicit closure calls through the Fn traits
+    m = re.match(r"^<(.*) as (Fn|FnMut|FnOnce)<(.*)>>::(call|call_mut|call_once)$", c, re.S)
+    if m and len(args) == 2:
+        used("Fn::call")
+        cl = args[0]
+        from interp import Cell as _Cell
+        if isinstance(cl, Ref):
+            tgt = read_path(cl.cell, cl.path)
+            while isinstance(tgt, Ref):
+                cl, tgt = tgt, read_path(tgt.cell, tgt.path)
+            if cl.path == ():
+                closure = cl.cell
+            else:
+                closure = _Cell(tgt)
+        else:
+            closure = _Cell(cl)
+        a = args[1]
+        return it.call_closure(closure, list(a.fields) if isinstance(a, Tuple) else ([] if a is UNIT else [a]))
     # ---- bool helpers
     m = re.match(r"^core::bool::<impl bool>::(then_some|then)(?:::<.*>)?$", c)
     if m:
@@ -156,6 +174,11 @@ def try_builtin(it, callee, args):
     if m:
         a, b = deref(args[0]), deref(args[1])
         return dom.cmp({"lt": "Lt", "le": "Le", "gt": "Gt", "ge": "Ge"}[m.group(1)], a, b)
+    m = re.match(r"^<(?:std::cmp::)?Ordering as PartialEq>::(eq|ne)$", c)
+    if m:
+        a, b = deref(args[0]), deref(args[1])
+        r = (a.disc == b.disc)
+        return r if m.group(1) == "eq" else (not r)
     # ---- usize helpers
     m = re.match(r"^core::num::<impl usize>::(saturating_sub|saturating_add|min|max|checked_sub|wrapping_sub)$", c)
     if m and all(isinstance(x, int) for x in args):
@@ -211,6 +234,29 @@ def try_builtin(it, callee, args):
             if not len(sl):
                 return Opt(None, False)
             return Opt(Tuple([elem_ref(sl, 0), SliceRef(sl.cell, sl.path, sl.start + 1, sl.end)]), True)
+        if name in ("chunks", "chunks_exact", "rchunks", "rchunks_exact", "windows"):
+            k = args[1]
+            if not isinstance(k, int) or k <= 0:
+                raise Panic("chunk size must be non-zero")
+            n = len(sl)
+            sub = lambda a, b: SliceRef(sl.cell, sl.path, sl.start + a, sl.start + b)
+            if name == "windows":
+                return ListIter([sub(i, i + k) for i in range(0, max(n - k + 1, 0))])
+            if name == "chunks":
+                return ListIter([sub(i, min(i + k, n)) for i in range(0, n, k)])
+            if name == "chunks_exact":
+                full = n // k
+                li = ListIter([sub(i * k, (i + 1) * k) for i in range(full)])
+                li.remainder = sub(full * k, n)
+                return li
+            if name == "rchunks":
+                return ListIter([sub(max(e_ - k, 0), e_) for e_ in range(n, 0, -k)])
+            full = n // k
+            li = ListIter([sub(n - (i + 1) * k, n - i * k) for i in range(full)])
+            li.remainder = sub(0, n - full * k)
+            return li
+        if name in ("to_vec",):
+            return VecV([clone_value(read_path(sl.cell, sl.path + (sl.start + i,))) for i in range(len(sl))])
         if name == "split_at_checked":
             k = args[1]
             if k > len(sl):
@@ -261,6 +307,12 @@ def try_builtin(it, callee, args):
                 raise Panic("slice range out of bounds")
             return SliceRef(sl.cell, sl.path, sl.start + s, sl.start + e)
         raise Unsupported("slice index by %r" % (idx,))
+    m = re.match(r"^(?:(?:std|core)::slice::)?(?:R?ChunksExact)::<.*>::(?:remainder|into_remainder)$", c, re.S)
+    if m:
+        li = deref(args[0])
+        if isinstance(li, ListIter) and li.remainder is not None:
+            return li.remainder
+        raise Unsupported("remainder of a non-exact chunk iterator")
     # ---- Vec
     m = re.match(r"^<(?:std::vec::)?Vec<(.*)> as (Deref|DerefMut)>::(deref|deref_mut)$", c, re.S)
     if m:
@@ -276,7 +328,19 @@ def try_builtin(it, callee, args):
                 raise Panic("index out of bounds")
             return elem_ref(sl, idx)
         return try_builtin(it, "<[T] as Index<R>>::index", [sl, idx])
-    m = re.match(r"^(?:std::vec::)?Vec::<(.*)>::(\w+)$", c, re.S)
+    m = re.match(r"^<(?:std::vec::)?Vec<(.*)> as Extend<(.*)>>::extend(?:::<.*>)?$", c, re.S)
+    if m:
+        used("Vec::extend")
+        r = args[0]
+        v = read_path(r.cell, r.path)
+        itr = into_iter(args[1])
+        while True:
+            x = itr.next(it)
+            if x is None:
+                break
+            v.fields.append(x)
+        return UNIT
+    m = re.match(r"^(?:std::vec::)?Vec::<(.*)>::(\w+)(?:::<.*>)?$", c, re.S)
     if m:
         name = m.group(2)
         used("Vec::" + name)
@@ -288,6 +352,19 @@ def try_builtin(it, callee, args):
         v = read_path(r.cell, r.path) if isinstance(r, Ref) else r
         if name == "push":
             v.fields.append(args[1])
+            return UNIT
+        if name == "extend_from_slice":
+            sl2 = as_slice(args[1])
+            for i in range(len(sl2)):
+                v.fields.append(clone_value(read_path(sl2.cell, sl2.path + (sl2.start + i,))))
+            return UNIT
+        if name == "pop":
+            return Opt(v.fields.pop(), True) if v.fields else Opt(None, False)
+        if name == "truncate":
+            del v.fields[args[1]:]
+            return UNIT
+        if name == "reverse":
+            v.fields.reverse()
             return UNIT
         if name == "len":
             return len(v.fields)
@@ -324,7 +401,7 @@ def try_builtin(it, callee, args):
             pass
         raise Unsupported("Option method " + name)
     # ---- iterators
-    m = re.match(r"^<(.*) as (Iterator|DoubleEndedIterator|IntoIterator|Clone)>::(\w+)(?:::<.*>)?$", c, re.S)
+    m = re.match(r"^<(.*) as (Iterator|DoubleEndedIterator|ExactSizeIterator|IntoIterator|Clone)>::(\w+)(?:::<.*>)?$", c, re.S)
     if m and (isinstance(deref(args[0]) if args else None, (IterBase, VecV, SliceRef, Array)) or
               (args and isinstance(args[0], (SliceRef,)))):
         name = m.group(3)
@@ -350,6 +427,31 @@ def try_builtin(it, callee, args):
             return ClonedIter(itr)
         if name == "skip":
             return SkipIter(itr, args[1])
+        if name == "take":
+            return TakeIter(itr, args[1])
+        if name == "len":
+            r = remaining_len(itr)
+            if r is None:
+                raise Unsupported("len of an iterator of unknown length")
+            return r
+        if name == "next_back":
+            x = itr.next_back(it)
+            return Opt(x, True) if x is not None else Opt(None, False)
+        if name == "last":
+            last = None
+            while True:
+                x = itr.next(it)
+                if x is None:
+                    break
+                last = x
+            return Opt(last, True) if last is not None else Opt(None, False)
+        if name == "nth":
+            x = None
+            for _ in range(args[1] + 1):
+                x = itr.next(it)
+                if x is None:
+                    return Opt(None, False)
+            return Opt(x, True)
         if name == "enumerate":
             return EnumerateIter(itr)
         if name == "collect":
